@@ -115,3 +115,73 @@ def run(prog, rule="R-INTDIV"):
     res.counts["divisions_by_host_controlled_values"] = n
     res.floor("host-controlled int fields", len(hc), 5)
     return res
+
+
+def run_quotient(prog, rule="R-QUOTDIV", floor=1):
+    """a quotient is not a safe divisor.  A record field that some function fills with an integer quotient (`ngroups = nelems / k`) is zero
+    whenever the dividend is smaller than the divisor - a problem without structural columns has no pricing group.  Every integer `/` or
+    `%` whose divisor is such a field must be dominated by a comparison of the field (or lie in a function whose caller tests it: not
+    followed - the test belongs next to the division).  Fields are found from their assignments, not listed."""
+    res = RuleResult(rule, "an integer division or remainder by a record field that is computed as an integer quotient is dominated by a comparison of that field")
+    quot = {}
+    for f in prog.funcs.values():
+        if "_dbl." in f.unit or "_mpf." in f.unit or f.live is None or not f.unit.startswith("qsopt_ex/"):
+            continue
+        for b, i, e in f.elements():
+            if e[0] == "A" and e[1][1] == "=":
+                lhs = strip(e[1][2])
+                rhs = strip(e[1][3])
+                if isinstance(lhs, list) and lhs and lhs[0] == "m" and isinstance(rhs, list) and rhs and rhs[0] == "b" and rhs[1] == "/" \
+                        and not any(x[0] == "k" and "double" in str(x[1]) for x in walk(rhs)):
+                    rec, fld = lhs[2].split("::")
+                    r = prog.records.get(rec)
+                    ty = [x[1] for x in (r or {}).get("fields", ()) if x[0] == fld]
+                    if ty and _is_int_type(ty[0]):
+                        quot.setdefault(lhs[2], (f.name, show(rhs)[:40], e[2]))
+    res.counts["quotient_fields"] = sorted(x.split("::")[1] for x in quot)
+    n = 0
+    for f in sorted(prog.funcs.values(), key=lambda x: x.key):
+        if "_dbl." in f.unit or "_mpf." in f.unit or f.live is None or not f.unit.startswith("qsopt_ex/"):
+            continue
+
+        def scan(t, loc, bid):
+            nonlocal n
+            for nd in walk(t):
+                if not (nd[0] == "b" and nd[1] in ("/", "%")) or const_of(nd[3]) is not None:
+                    continue
+                flds = [x for x in walk(nd[3]) if x[0] == "m" and x[2] in quot]
+                if not flds:
+                    continue
+                n += 1
+                res.obligations += 1
+                res.nontrivial += 1
+                ok = False
+                for x in flds:
+                    g, where = guarded(prog, f, bid, show(x))
+                    if g:
+                        ok = True
+                if ok:
+                    res.sample({"site": "%s %s: %s" % (short_loc(loc), f.name, show(nd)[:60]), "verdict": "dominated by a test of the divisor"}, limit=6)
+                    continue
+                src = flds[0][2]
+                key = "%s|division by the quotient field %s" % (f.name.replace("mpq_", ""), src.split("::")[1])
+                if any(v.key == key for v in res.violations):
+                    continue
+                who = quot[src]
+                res.violations.append(Violation(rule, key, f.name, short_loc(loc),
+                                                "%s: the divisor %s is computed as the integer quotient %s in %s and is zero when the dividend is the smaller number; "
+                                                "no comparison of it dominates the division (SIGFPE)" % (show(nd)[:60], src, who[1], who[0])))
+        for b, i, e in f.elements():
+            if e[0] in ("A", "C", "R", "U") and e[1] is not None:
+                scan(e[1], e[2] if len(e) > 2 else f.loc, b["id"])
+            elif e[0] == "D":
+                for nm, init in e[1]:
+                    if init is not None:
+                        scan(init, e[2], b["id"])
+        for bid in f.live:
+            b = f.blocks[bid]
+            if b.get("c") is not None:
+                scan(b["c"], b.get("tloc") or f.loc, bid)
+    res.counts["divisions_by_quotient_fields"] = n
+    res.floor("integer divisions by a field that is computed as a quotient", n, floor)
+    return res
